@@ -511,3 +511,59 @@ def run_pattern_scenario(spec):
     out["tape_len"] = len(tape.lines)
     out["raised"] = raised
     return out
+
+
+# ----------------------------------------------------------------------------- PowellsMethod (GFO.Model.Powell)
+
+def run_powell_scenario(spec):
+    assert spec["opt"] == "PowellsMethod"
+    tape = Tape()
+    holder = {}
+    import gradient_free_optimizers.optimizers.global_opt.powells_method.powells_method as pm
+
+    def on_built(opt):
+        holder["init_l"] = [[int(x) for x in p] for p in opt.init.init_positions_l]
+        instance_patches(opt, tape)
+        orig_new_dim = opt.new_dim
+
+        def new_dim():
+            r_ = orig_new_dim()
+            inner = opt.hill_climb
+            l = [[int(x) for x in p] for p in inner.init.init_positions_l]
+            tape.add("I", " ".join([str(len(l))] + [" ".join(str(x) for x in p) for p in l]))
+            instance_patches(inner, tape)
+            return r_
+        opt.new_dim = new_dim
+    orig_sort = pm.sort_list_idx
+
+    def sort_list_idx(list_):
+        out = orig_sort(list_)
+        tape.add("o", " ".join([str(len(out))] + [str(int(i)) for i in out]))
+        return out
+    pm.sort_list_idx = sort_list_idx
+    try:
+        with module_patches(tape):
+            out = scen.run_scenario(spec, with_model=False, on_built=on_built)
+    finally:
+        pm.sort_list_idx = orig_sort
+    real = out["real"]
+    opt, rec, records, space = real["opt"], real["rec"], real["records"], real["space"]
+    wnew = (f"wnew {opt.init.n_inits} {int(opt.iters_p_dim)} {int(opt.n_neighbours)} {tok_rat(opt.rand_rest_p)} "
+            f"{len(holder['init_l'])} " + " ".join(" ".join(str(x) for x in p) for p in holder["init_l"])).rstrip()
+    f = real["f"]
+    lines, expect = drv.encode_history(space, opt.init.n_inits, opt, rec, records, (lambda k, para: f(para)),
+                                       local=dict(lnew=wnew, tape=tape.lines))
+    raised = any(r["exc"] is not None for r in records)
+    if not raised:
+        lines.append("wstate")
+        expect.append("tracker " + tracker_core(opt))
+        pp = getattr(opt, "powells_pos", None)
+        expect.append(f"powell nthIter={getattr(opt, 'nth_iter_', -1)} curDimIter={getattr(opt, 'nth_iter_current_dim', 0)} dim={opt.current_search_dim} "
+                      f"pos={'[]' if pp is None else C.show_pos(pp)} tapeLeft=0")
+        inner = getattr(opt, "hill_climb", None)
+        expect.append("inner None" if inner is None else "inner " + tracker_core(inner))
+    out.update(lines=lines, expect=expect)
+    out["tape_kinds"] = dict(tape.kinds)
+    out["tape_len"] = len(tape.lines)
+    out["raised"] = raised
+    return out
